@@ -106,6 +106,19 @@ _PURE_BUILTINS = {"len": len, "abs": abs, "max": max, "min": min, "round": round
                   "type": type, "hasattr": None, "id": id, "format": format, "divmod": divmod, "ord": ord, "chr": chr}
 
 
+def _pure_callables():
+    out = set()
+    for v in list(_PURE_STDLIB.values()) + [v for v in _PURE_BUILTINS.values() if v is not None]:
+        try:
+            out.add(v)
+        except TypeError:
+            pass
+    return out
+
+
+_PURE_CALLABLES = _pure_callables()
+
+
 class Synth:
     """base of objects fabricated by the checker to stand for repository dataclass instances"""
 
@@ -471,12 +484,15 @@ class Interp:
             v = self.expr(n.operand, env)
             if isinstance(n.op, ast.Not):
                 return not self._truth(v)
-            if isinstance(n.op, ast.USub):
-                return -v
-            if isinstance(n.op, ast.UAdd):
-                return +v
-            if isinstance(n.op, ast.Invert):
-                return ~v
+            try:
+                if isinstance(n.op, ast.USub):
+                    return -v
+                if isinstance(n.op, ast.UAdd):
+                    return +v
+                if isinstance(n.op, ast.Invert):
+                    return ~v
+            except TypeError:
+                raise Raised("TypeError", "unary", n)
         if isinstance(n, ast.BinOp):
             return self._binop(type(n.op), self.expr(n.left, env), self.expr(n.right, env), n)
         if isinstance(n, ast.BoolOp):
@@ -527,6 +543,10 @@ class Interp:
                 raise Raised("TypeError", "", n)
         if isinstance(n, (ast.ListComp, ast.SetComp, ast.GeneratorExp, ast.DictComp)):
             return self._comp(n, env)
+        if isinstance(n, ast.Attribute) and isinstance(n.value, ast.Name) and n.value.id not in env:
+            imp = getattr(self.mod, "imports", {}).get(n.value.id)
+            if imp is not None and imp[1] is None and (imp[0], n.attr) in _PURE_STDLIB:
+                return _PURE_STDLIB[(imp[0], n.attr)]   # op.lt, math.floor ... used as a value
         if isinstance(n, ast.Attribute):
             base = self.expr(n.value, env)
             if isinstance(base, dict) and n.attr in base and base.get("__obj__"):
@@ -562,6 +582,30 @@ class Interp:
             _lam._dl_lambda = True
             return _lam
         raise Unsupported(f"expression {type(n).__name__}")
+
+    def _deref(self, v):
+        """a literal table's reference to a function (`{"int": int}`, `{ast.Lt: op.lt}`) -> the function"""
+        if isinstance(v, lit.Ref):
+            nm = v.name
+            if nm in _TYPES:
+                return _TYPES[nm]
+            if _PURE_BUILTINS.get(nm) is not None:
+                return _PURE_BUILTINS[nm]
+            if "." in nm:
+                root, attr = nm.split(".", 1)
+                if (root, attr) in _PURE_STDLIB:
+                    return _PURE_STDLIB[(root, attr)]
+                imp = getattr(self.mod, "imports", {}).get(root)
+                if imp is not None and imp[1] is None and (imp[0], attr) in _PURE_STDLIB:
+                    return _PURE_STDLIB[(imp[0], attr)]
+        return v
+
+    @staticmethod
+    def _pure(fn):
+        try:
+            return fn in _PURE_CALLABLES
+        except TypeError:
+            return False
 
     def _stdlib(self, fn, args, kwargs, node):
         try:
@@ -672,6 +716,8 @@ class Interp:
                 return getattr(base, m)(*args)
             if base is dict and m == "fromkeys":
                 return dict.fromkeys(*args)
+            if type(base) in (int, bool) and m in ("bit_length", "bit_count", "conjugate", "is_integer") or type(base) is float and m in ("is_integer", "hex", "as_integer_ratio"):
+                return getattr(base, m)(*args)
             raise Unsupported(f"method {m} on {type(base).__name__}")
         if isinstance(f, ast.Name):
             name = f.id
@@ -702,6 +748,14 @@ class Interp:
                 return self._call(target.fn, args, kwargs, target.env)
             if callable(target) and getattr(target, "_dl_lambda", False):
                 return target(*args)
+            target = self._deref(target)
+            if isinstance(target, type) and target in _TYPES.values() and name in env:
+                try:
+                    return target(*args, **kwargs)
+                except (ValueError, TypeError, OverflowError) as e:
+                    raise Raised(type(e).__name__, "", n)
+            if target is not None and callable(target) and self._pure(target):
+                return self._stdlib(target, args, kwargs, n)   # a table entry such as ops[ast.Lt] = operator.lt
             imp = getattr(self.mod, "imports", {}).get(name)
             if name not in env and imp is not None and imp[1] is not None and (imp[0], imp[1]) in _PURE_STDLIB:
                 return self._stdlib(_PURE_STDLIB[(imp[0], imp[1])], args, kwargs, n)
@@ -733,6 +787,19 @@ class Interp:
                 except TypeError:
                     raise Raised("TypeError", "", n)
             raise Unsupported(f"call to {name}")
+        if not isinstance(f, (ast.Name, ast.Attribute)):
+            target = self._deref(self.expr(f, env))
+            if isinstance(target, Closure):
+                return self._call(target.fn, args, kwargs, target.env)
+            if callable(target) and getattr(target, "_dl_lambda", False):
+                return target(*args)
+            if callable(target) and self._pure(target):
+                return self._stdlib(target, args, kwargs, n)
+            if isinstance(target, type) and target in _TYPES.values():
+                try:
+                    return target(*args, **kwargs)
+                except (ValueError, TypeError, OverflowError) as e:
+                    raise Raised(type(e).__name__, "", n)
         raise Unsupported("call form")
 
 
